@@ -99,6 +99,27 @@ Definition judge_composite (sc : schema) (st : step) (r : request) (o : qout) (s
       end
   end.
 
+(* a ranking leaf on its own: hybrid = weight x score (text), -(weight x distance) (vectors), for the weight the
+   request carries -- an explicit 0 included -- and 1 when it carries none *)
+Definition leaf_hybrid_ok (lr : request) (lo : qout) : bool :=
+  match lo with
+  | QError _ => true       (* judged as a failed contribution elsewhere *)
+  | QRows rows =>
+      match rq_query lr with
+      | QFlat _ _ _ w _ | QVamana _ _ _ _ w _ =>
+          forallb (fun x => match r_dist x with
+                            | Some d => hyb_close (f32_to_Q (r_hybrid x)) (- (weight_q w * f32_to_Q d))%Q
+                            | None => false
+                            end) rows
+      | QText _ _ _ _ w _ =>
+          forallb (fun x => match r_score x with
+                            | Some sc => hyb_close (f32_to_Q (r_hybrid x)) (weight_q w * f32_to_Q sc)%Q
+                            | None => false
+                            end) rows
+      | _ => true
+      end
+  end.
+
 (* walk the recorded requests: a composite request is followed by the standalone runs of its ranking leaves *)
 Fixpoint judge_queries (fuel : nat) (sc : schema) (st : step) (qs : list (request * qout)) : N :=
   match fuel with
@@ -113,6 +134,7 @@ Fixpoint judge_queries (fuel : nat) (sc : schema) (st : step) (qs : list (reques
           | None => 291
           | Some subs =>
               if negb (length subs =? k)%nat then 291 else
+              if negb (forallb (fun ro => leaf_hybrid_ok (fst ro) (snd ro)) (firstn k rest)) then 180 else
               let c := judge_composite sc st r o subs in
               if c =? 0 then judge_queries f sc st (skipn k rest) else c
           end
